@@ -20,6 +20,10 @@ EXTENDS Wb, Json, SequencesExt
 
 CONSTANTS Kinds           \* {"subducting plate", "fault"}
 
+(* three trench coordinates, deliberately NOT exactly collinear (the middle one 5 km off the line): exactly collinear
+   coordinates hit the degenerate control-point orientation recorded as a C06 / C19 finding *)
+Trench3 == <<<<0, 0>>, <<5 * Km, 300 * Km>>, <<0, 600 * Km>>>>
+
 Levels == {"inherit", "section", "segment"}
 SecOpt == {[present |-> FALSE, t |-> "inherit", c |-> "inherit"]} \cup [present : {TRUE}, t : Levels, c : Levels]
 Config == [kind : Kinds, sec : [0..2 -> SecOpt]]
@@ -52,14 +56,14 @@ Doc(c, layout) ==
   LET entries == CASE layout = "asis" -> [i \in 1..Cardinality(Present(c)) |-> Entry(c, SetToSeq(Present(c))[i])]
                    [] layout = "explicit" -> [i \in 1..3 |-> ExplicitEntry(c, i - 1)]
                    [] layout = "repeat" -> [i \in 1..3 |-> IF c.sec[i - 1].present THEN Entry(c, i - 1) ELSE RepeatEntry(i - 1)]
-      feat == Line(c.kind, "line", <<<<0, 0>>, <<0, 300 * Km>>, <<0, 600 * Km>>>>, <<500 * Km, 300 * Km>>, 0, 1000 * Km,
+      feat == Line(c.kind, "line", Trench3, <<500 * Km, 300 * Km>>, 0, 1000 * Km,
                    <<BaseSeg>>, TM(FT), CM(FC), <<>>, <<>>)
   IN World(Cartesian, <<feat @@ (IF entries = <<>> THEN <<>> ELSE ("sections" :> entries))>>)
 
 (* probes: y in quarters of a coordinate interval; x = 100 km on the dip side, 120 km deep: inside slab and fault *)
 HM == 2000 * Km
 YQ == 0..8                                   \* y = 75 km * q ; coordinate k at q = 4 k
-Row(q) == <<100 * Km, IF q = 0 THEN 1 * Km ELSE IF q = 8 THEN 599 * Km ELSE 75 * q * Km, HM - 120 * Km, 120 * Km>>
+Row(q) == <<105 * Km, IF q = 0 THEN 1 * Km ELSE IF q = 8 THEN 599 * Km ELSE 75 * q * Km, HM - 120 * Km, 120 * Km>>
 (* quarter q lies between coordinates Lo(q) and Lo(q) + 1; at q = 4 it is exactly coordinate 1 *)
 Lo(q) == IF q = 8 THEN 1 ELSE q \div 4
 EndsT(c, q) == <<ResT(c, Lo(q)), ResT(c, Lo(q) + 1)>>
@@ -112,7 +116,7 @@ GeoEntry(c, k) == ("coordinate" :> k) @@ ("segments" :> <<GeoSeg(c.g[k].l1, c.g[
 GeoPresent(c) == {k \in 0..2 : c.g[k].present}
 GeoDoc(c) ==
   LET entries == [i \in 1..Cardinality(GeoPresent(c)) |-> GeoEntry(c, SetToSeq(GeoPresent(c))[i])]
-      feat == Line(c.kind, "line", <<<<0, 0>>, <<0, 300 * Km>>, <<0, 600 * Km>>>>, <<500 * Km, 300 * Km>>, 0, 1000 * Km,
+      feat == Line(c.kind, "line", Trench3, <<500 * Km, 300 * Km>>, 0, 1000 * Km,
                    <<GeoSeg(100, 100, 500), GeoSeg(100, 100, 900)>>, <<>>, <<>>, <<>>, <<>>)
   IN World(Cartesian, <<feat @@ (IF entries = <<>> THEN <<>> ELSE ("sections" :> entries))>>)
       @@ ("thermal expansion coefficient" :> 0) @@ ("potential mantle temperature" :> 1600)
@@ -133,8 +137,9 @@ GeoT(c, k, k2, z) ==
 GeoIn(c, k, k2, d) ==
   LET lo == Lo2(c.g[k].t, c.g[k2].t)  hi == Hi2(c.g[k].t, c.g[k2].t)
       half == c.kind = "fault"
-  IN IF (IF half THEN 2 * d + 6 <= lo ELSE d + 3 <= lo) THEN 1
-     ELSE IF (IF half THEN 2 * d - 6 >= hi ELSE d - 3 >= hi) THEN 0 ELSE -1
+  \* margins of 8 km: the offsets are measured from x = 0 while the (slightly bowed) trench lies at x = 0..5 km
+  IN IF (IF half THEN 2 * d + 16 <= lo ELSE d + 8 <= lo) THEN 1
+     ELSE IF (IF half THEN 2 * d - 16 >= hi ELSE d - 8 >= hi) THEN 0 ELSE -1
 GeoRows(c) ==
   LET ps == SetToSeq((1..Len(GeoYs)) \X {2, 20, 45, 60, 95, 110, 145, 160, 195, 210})
       row(i, z) == LET y == GeoYs[i] t == GeoT(c, y[2], y[3], z) IN
